@@ -45,17 +45,20 @@ Fixpoint dist2 (p q : point) : Q :=
 (** two points denote the same location *)
 Definition same_loc (p q : point) : Prop := dist2 p q == 0.
 
-(** First index of minimal squared distance: a computable instance of the KD-tree oracle. *)
-Fixpoint nearest_first (p : point) (pts : list point) : nat :=
+(** First index of minimal squared distance (with that distance): a computable instance of the
+    KD-tree oracle. *)
+Fixpoint argmin (p : point) (pts : list point) : nat * Q :=
   match pts with
-  | [] => 0
+  | [] => (0%nat, 0)
   | q :: r =>
       match r with
-      | [] => 0
-      | _ => let k := nearest_first p r in
-             if Qle_bool (dist2 p q) (dist2 p (nth k r [])) then 0 else S k
+      | [] => (0%nat, dist2 p q)
+      | _ => let kd := argmin p r in
+             let dq := dist2 p q in
+             if Qle_bool dq (snd kd) then (0%nat, dq) else (S (fst kd), snd kd)
       end
   end.
+Definition nearest_first (p : point) (pts : list point) : nat := fst (argmin p pts).
 
 (** * Mask specifications, as far as the regridding adapters distinguish them *)
 
@@ -302,7 +305,7 @@ Definition Qabs_le_tol (a b : Q) : bool :=
 
 (** [v] is the value of an unmasked source point at minimal distance from [p] *)
 Definition is_nearest_value (ic : list point) (cv : list Q) (p : point) (v : Q) : bool :=
-  let dmin := dist2 p (nth (nearest_first p ic) ic []) in
+  let dmin := snd (argmin p ic) in
   existsb (fun qv : point * Q => Qeq_bool (dist2 p (fst qv)) dmin && Qeq_bool (snd qv) v)
           (combine ic cv).
 
